@@ -8,14 +8,9 @@
   * `IdsNodup t`: node identities are pairwise distinct (C01) — needed because the edge loops
     recognise the start node by identity (`n._parent is node`) and because with
     `unique_nodes=False` the node id is the key;
-  * DOT with `add_self=True`: the start node must be the system root (`hasParent = false`) and,
-    with `unique_nodes=True`, no descendant may share its data_id — otherwise the real code
-    (and the model) declares the start node WITHOUT a label and possibly TWICE:
-    `dot_nodes_self_partial` states exactly what is declared (findings KF-C17-dot-self-*);
-  * Mermaid: kinds are non-empty (an empty kind is falsy and gives an unlabelled edge);
-  * RDF: `has_child` statements are only emitted for a parent whose rdflib term is truthy:
-    `Literal(0)` / `Literal("")` are falsy (finding KF-C17-rdf-falsy-parent); `rdf_edges_spec`
-    carries this as the explicit side condition `s.truthy`.
+  * DOT with `add_self=True` on the system root: the root is labelled with `tree.name`, which is
+    the system root's own name (`_SystemRootNode._data = tree.name`): `treeName = t.name`;
+  * Mermaid: kinds are non-empty (an empty kind is falsy and gives an unlabelled edge).
 -/
 import Nutree.Lemmas.Graph
 import Nutree.Lemmas.GraphNodes
@@ -26,48 +21,27 @@ open T C10 Graph Graph.Spec
 
 /-! ### DOT -/
 
-/-- What `node_to_dot` declares, in all cases: with `add_self` the start node first (labelled
-with the tree name when it is the system root, UNLABELLED otherwise), then the first occurrence
-of every key among the descendants with the node's name — the start node's key is not in
-`used_keys`, so a descendant with the same data_id is declared again. -/
-theorem dot_nodes_self_partial (treeName : String) (unique addSelf hasParent : Bool) (t : T) :
-    dotNodes treeName unique addSelf hasParent t
-      = (if addSelf then [(keyOf unique t, if hasParent then none else some treeName)] else [])
-        ++ (nodesSpec unique false t).map (fun y => (y.1, some y.2)) := by
-  unfold dotNodes
-  rw [dotDeclLoop_spec]
-
-/-- **DOT nodes**: the declared keys are the specified graph nodes, each labelled with its name;
-with `add_self` under the hypotheses that the start node is the system root (named like the
-tree) and, for `unique_nodes`, that no descendant carries the start node's data_id. -/
+/-- **DOT nodes**: the declared keys are exactly the specified graph nodes (one per distinct
+data_id resp. one per tree node, first-occurrence order), each labelled with its name — also with
+`add_self` on an inner node and with a clone of the start node among its descendants. -/
 theorem dot_nodes_spec (treeName : String) (unique addSelf hasParent : Bool) (t : T)
-    (hself : addSelf = true → hasParent = false ∧ treeName = t.name ∧
-      (unique = true → ∀ n ∈ flatL t.kids, n.did ≠ t.did)) :
+    (hname : hasParent = false → treeName = t.name) :
     dotNodes treeName unique addSelf hasParent t
       = (nodesSpec unique addSelf t).map (fun y => (y.1, some y.2)) := by
-  rw [dot_nodes_self_partial]
+  unfold dotNodes
+  have hl : (if hasParent then t.name else treeName) = t.name := by
+    cases hasParent
+    · simp [hname rfl]
+    · simp
+  rw [hl]
   cases addSelf
-  · simp
-  · obtain ⟨h1, h2, h3⟩ := hself rfl
-    subst h1 h2
-    cases unique
-    · simp [nodesSpec, exported_true, exported_false, keyOf]
-    · rw [nodesSpec_true, nodesSpec_true, dedup_exported_true_of_fresh true t
-        (fun n hn => by simpa [keyOf] using h3 rfl n hn)]
+  · simp [dotDeclLoop_spec]
+  · cases unique
+    · rw [iterPre_flat, dotDeclLoop_false]
+      simp [nodesSpec, exported_true, keyOf]
+    · simp only [if_true]
+      rw [dotDeclLoop_seeded, nodesSpec_true true, dedup_exported_true, ← nodesSpec_true false]
       simp [kn]
-
-/-- Counterexample to `dot_nodes_spec` without its hypotheses (the tree `A[B[A']]`, start node
-`A`, `add_self=True`, `unique_nodes=True`): `A`'s data_id is declared twice, first without label. -/
-theorem dot_nodes_self_counterexample :
-    let atomA : Atom := { obj := 0, eqc := 0, hid := .int 1, truthy := true, isStr := true, name := "A" }
-    let atomB : Atom := { obj := 1, eqc := 1, hid := .int 2, truthy := true, isStr := true, name := "B" }
-    let a' : T := .node { id := 3, data := atomA, did := .int 1 } []
-    let b : T := .node { id := 2, data := atomB, did := .int 2 } [a']
-    let a : T := .node { id := 1, data := atomA, did := .int 1 } [b]
-    dotNodes "t" true true true a
-        = [(.did (.int 1), none), (.did (.int 2), some "B"), (.did (.int 1), some "A")]
-      ∧ nodesSpec true true a = [(.did (.int 1), "A"), (.did (.int 2), "B")] := by
-  decide
 
 /-- **DOT edges**: one edge per node of the branch whose parent is exported, in pre-order, from
 the parent's key to the node's key, labelled with the kind (typed trees). -/
@@ -166,12 +140,9 @@ theorem rdf_set (treeName : String) (isTree addSelf : Bool) (t : T) :
     (rdfTriples treeName isTree addSelf t).Nodup :=
   graphAddAll_nodup _ List.nodup_nil
 
-/-- **RDF edges**: the `has_child` statements are exactly the image of the edge list — restricted
-to the parents whose term is truthy (`Literal(0)` and `Literal("")` are falsy in rdflib, so the
-children of a node whose data_id is `0` or `""` are NOT attached: KF-C17-rdf-falsy-parent). -/
+/-- **RDF edges**: the `has_child` statements are exactly the image of the edge list. -/
 theorem rdf_edges_spec (treeName : String) (isTree addSelf : Bool) (t : T) (s : Subj) (d : DataId) :
-    Triple.hasChild s d ∈ rdfTriples treeName isTree addSelf t
-      ↔ (s, d) ∈ rdfEdgesSpec isTree addSelf t ∧ s.truthy = true := by
+    Triple.hasChild s d ∈ rdfTriples treeName isTree addSelf t ↔ (s, d) ∈ rdfEdgesSpec isTree addSelf t := by
   rw [mem_rdfTriples, calls_eq, List.mem_append, rdfEdgesSpec_eq, List.mem_filterMap, List.mem_flatMap]
   have hhead : Triple.hasChild s d ∉
       (if isTree then [Triple.name .sysRoot treeName] else if addSelf then rdfNodeAdds none t none else []) := by
@@ -179,8 +150,8 @@ theorem rdf_edges_spec (treeName : String) (isTree addSelf : Bool) (t : T) (s : 
   constructor
   · rintro (h | ⟨x, hx, h⟩)
     · exact absurd h hhead
-    · obtain ⟨h1, h2, h3⟩ := mem_rdfNodeAdds_hasChild.1 h
-      refine ⟨⟨x, hx, ?_⟩, h2⟩
+    · obtain ⟨h1, h3⟩ := mem_rdfNodeAdds_hasChild.1 h
+      refine ⟨x, hx, ?_⟩
       obtain ⟨_, hp⟩ := mem_annL hx
       cases hxt : x.top
       · simp only [itemSubj, hxt, Bool.false_eq_true, if_false, Option.some.injEq] at h1
@@ -191,8 +162,8 @@ theorem rdf_edges_spec (treeName : String) (isTree addSelf : Bool) (t : T) (s : 
           · rw [hxt] at h; exact absurd h (by simp)
         simp only [itemSubj, hxt, if_true, startSubj] at h1
         cases isTree <;> cases addSelf <;> simp_all
-  · rintro ⟨⟨x, hx, h⟩, h2⟩
-    refine Or.inr ⟨x, hx, mem_rdfNodeAdds_hasChild.2 ⟨?_, h2, ?_⟩⟩
+  · rintro ⟨x, hx, h⟩
+    refine Or.inr ⟨x, hx, mem_rdfNodeAdds_hasChild.2 ⟨?_, ?_⟩⟩
     · obtain ⟨_, hp⟩ := mem_annL hx
       cases hxt : x.top
       · simp only [hxt] at h
@@ -206,28 +177,6 @@ theorem rdf_edges_spec (treeName : String) (isTree addSelf : Bool) (t : T) (s : 
         simp only [itemSubj, hxt, if_true, startSubj]
         cases isTree <;> cases addSelf <;> simp_all
     · cases hc : (isTree || addSelf || !x.top) <;> simp_all
-
-/-- when every exported parent has a truthy data_id, the `has_child` statements are exactly the
-image of the edge list. -/
-theorem rdf_edges_spec_truthy (treeName : String) (isTree addSelf : Bool) (t : T)
-    (htruthy : ∀ e ∈ rdfEdgesSpec isTree addSelf t, e.1.truthy = true) (s : Subj) (d : DataId) :
-    Triple.hasChild s d ∈ rdfTriples treeName isTree addSelf t ↔ (s, d) ∈ rdfEdgesSpec isTree addSelf t := by
-  rw [rdf_edges_spec]
-  exact ⟨fun h => h.1, fun h => ⟨h, htruthy _ h⟩⟩
-
-/-- Counterexample to `rdf_edges_spec_truthy` without its hypothesis (the tree `[0[A]]`,
-`Tree.to_rdf_graph()`): the data_id of the object `0` is `0`, `Literal(0)` is falsy, so the
-statement `0 has_child A` is missing although `0 → A` is an edge of the tree. -/
-theorem rdf_falsy_parent_counterexample :
-    let atom0 : Atom := { obj := 0, eqc := 0, hid := .int 0, truthy := false, isStr := false, name := "0" }
-    let atomA : Atom := { obj := 1, eqc := 1, hid := .int 7, truthy := true, isStr := true, name := "A" }
-    let a : T := .node { id := 2, data := atomA, did := .int 7 } []
-    let z : T := .node { id := 1, data := atom0, did := .int 0 } [a]
-    let root : T := mkRoot [z]
-    (Subj.lit (.int 0), DataId.int 7) ∈ rdfEdgesSpec true true root
-      ∧ Triple.hasChild (.lit (.int 0)) (.int 7) ∉ rdfTriples "t" true true root
-      ∧ Triple.hasChild .sysRoot (.int 0) ∈ rdfTriples "t" true true root := by
-  decide
 
 /-- **RDF names**: one `name` statement per exported node (keyed by its data_id), plus the name
 of the tree for the system root of `Tree.to_rdf_graph()`. -/
@@ -282,21 +231,17 @@ theorem rdf_index_spec (treeName : String) (isTree addSelf : Bool) (t : T) (d : 
     simp only [Prod.mk.injEq] at h
     exact Or.inr ⟨x, hx, h.1, by rw [h.2]⟩
 
-/-- **The RDF graph as a whole** is the specified set of statements, minus the `has_child`
-statements of falsy parents. -/
+/-- **The RDF graph as a whole** is exactly the specified set of statements. -/
 theorem rdf_triples_spec (treeName : String) (isTree addSelf : Bool) (t : T) (x : Triple) :
-    x ∈ rdfTriples treeName isTree addSelf t
-      ↔ x ∈ rdfSpec treeName isTree addSelf t ∧ (∀ s d, x = Triple.hasChild s d → s.truthy = true) := by
+    x ∈ rdfTriples treeName isTree addSelf t ↔ x ∈ rdfSpec treeName isTree addSelf t := by
   cases x with
   | hasChild s d =>
     rw [rdf_edges_spec]
     simp only [rdfSpec, List.mem_append, List.mem_map, List.mem_filterMap]
     constructor
-    · rintro ⟨h1, h2⟩
-      refine ⟨Or.inl (Or.inl (Or.inl (Or.inl ⟨_, h1, rfl⟩))), ?_⟩
-      intro s' d' e; injection e with e1 _; rw [← e1]; exact h2
-    · rintro ⟨h1, h2⟩
-      refine ⟨?_, h2 s d rfl⟩
+    · intro h1
+      exact Or.inl (Or.inl (Or.inl (Or.inl ⟨_, h1, rfl⟩)))
+    · intro h1
       rcases h1 with (((⟨e, he, h⟩ | h) | ⟨n, _, h⟩) | ⟨n, _, h⟩) | ⟨e, _, h⟩
       · injection h with h1 h2; rw [← h1, ← h2]; exact he
       · cases isTree <;> simp at h
@@ -308,10 +253,10 @@ theorem rdf_triples_spec (treeName : String) (isTree addSelf : Bool) (t : T) (x 
     simp only [rdfSpec, List.mem_append, List.mem_map, List.mem_filterMap]
     constructor
     · rintro (⟨h1, h2, h3⟩ | ⟨n, hn, h1, h2⟩)
-      · refine ⟨Or.inl (Or.inl (Or.inl (Or.inr ?_))), by intro _ _ e; cases e⟩
+      · refine Or.inl (Or.inl (Or.inl (Or.inr ?_)))
         simp [h1, h2, h3]
-      · exact ⟨Or.inl (Or.inl (Or.inr ⟨n, hn, by rw [h1, h2]⟩)), by intro _ _ e; cases e⟩
-    · rintro ⟨h1, _⟩
+      · exact Or.inl (Or.inl (Or.inr ⟨n, hn, by rw [h1, h2]⟩))
+    · intro h1
       rcases h1 with (((⟨e, _, h⟩ | h) | ⟨n, hn, h⟩) | ⟨n, _, h⟩) | ⟨e, _, h⟩
       · simp at h
       · cases isTree
@@ -325,8 +270,8 @@ theorem rdf_triples_spec (treeName : String) (isTree addSelf : Bool) (t : T) (x 
     simp only [rdfSpec, List.mem_append, List.mem_map, List.mem_filterMap]
     constructor
     · rintro ⟨n, hn, h1, h2⟩
-      exact ⟨Or.inl (Or.inr ⟨n, hn, by simp [h1, h2]⟩), by intro _ _ e; cases e⟩
-    · rintro ⟨h1, _⟩
+      exact Or.inl (Or.inr ⟨n, hn, by simp [h1, h2]⟩)
+    · intro h1
       rcases h1 with (((⟨e, _, h⟩ | h) | ⟨n, hn, h⟩) | ⟨n, hn, h⟩) | ⟨e, _, h⟩
       · simp at h
       · cases isTree <;> simp at h
@@ -340,8 +285,8 @@ theorem rdf_triples_spec (treeName : String) (isTree addSelf : Bool) (t : T) (x 
     simp only [rdfSpec, List.mem_append, List.mem_map, List.mem_filterMap]
     constructor
     · intro h
-      exact ⟨Or.inr ⟨_, h, rfl⟩, by intro _ _ e; cases e⟩
-    · rintro ⟨h1, _⟩
+      exact Or.inr ⟨_, h, rfl⟩
+    · intro h1
       rcases h1 with (((⟨e, _, h⟩ | h) | ⟨n, hn, h⟩) | ⟨n, hn, h⟩) | ⟨e, he, h⟩
       · simp at h
       · cases isTree <;> simp at h
@@ -355,15 +300,15 @@ theorem rdf_triples_spec (treeName : String) (isTree addSelf : Bool) (t : T) (x 
 With `add_self/add_root = false`
 1. the edges are the edges of the full export whose parent is not the start node (same order);
 2. the omitted edges are exactly the edges start node → child, one per child;
-3. the graph nodes are those of the full export without the start node's own declaration
-   (provided no descendant shares the start node's key — otherwise that key stays declared,
-   for the descendant). -/
+3. the graph nodes of the full export are the start node's declaration followed by the graph
+   nodes of the export without root, except the start node's own key (which stays a graph node
+   of the export without root only when a descendant carries it). -/
 theorem no_root (unique : Bool) (t : T) (hN : IdsNodup t) :
     edgesSpec unique false t
         = ((edgePairs true t).filter (fun pn => !(pn.1.id == t.id))).map (toEdge unique)
     ∧ (edgePairs true t).filter (fun pn => pn.1.id == t.id) = t.kids.map (fun c => (t, c))
-    ∧ ((∀ n ∈ flatL t.kids, keyOf unique n ≠ keyOf unique t) →
-        nodesSpec unique true t = (keyOf unique t, t.name) :: nodesSpec unique false t) := by
+    ∧ nodesSpec unique true t
+        = (keyOf unique t, t.name) :: (nodesSpec unique false t).filter (fun y => y.1 != keyOf unique t) := by
   refine ⟨?_, ?_, ?_⟩
   · rw [edgesSpec, edgePairs_eq_filter hN, edgePairs_true]; simp
   · rw [edgePairs_true, withParent_eq, List.filter_map]
@@ -374,24 +319,30 @@ theorem no_root (unique : Bool) (t : T) (hN : IdsNodup t) :
       simp only [Function.comp, top_iff_id hN hx]
     rw [this]
     exact annL_top_items t 0 t.kids
-  · intro h
-    have hN' : unique = false → IdsNodup t := fun _ => hN
-    rw [nodesSpec_eq_dedup unique true hN', nodesSpec_eq_dedup unique false hN',
-      dedup_exported_true_of_fresh unique t h]
+  · have hN' : unique = false → IdsNodup t := fun _ => hN
+    rw [nodesSpec_eq_dedup unique true hN', nodesSpec_eq_dedup unique false hN', dedup_exported_true]
     rfl
 
 /-- the same for the model of the DOT export, without any hypothesis: the declarations and edges
-with `add_self=False` are those with `add_self=True` minus the start node's declaration and
-the edges whose parent is (identical to) the start node. -/
+with `add_self=False` are those with `add_self=True` minus the start node's declaration (with
+`unique_nodes` the start node's key may be declared for a descendant instead) and minus the
+edges whose parent is (identical to) the start node. -/
 theorem no_root_dot (treeName : String) (unique hasParent typed : Bool) (t : T) :
     dotNodes treeName unique true hasParent t
-        = (keyOf unique t, if hasParent then none else some treeName) :: dotNodes treeName unique false hasParent t
+        = (keyOf unique t, some (if hasParent then t.name else treeName)) ::
+          (if unique then (dotNodes treeName unique false hasParent t).filter (fun y => y.1 != keyOf unique t)
+           else dotNodes treeName unique false hasParent t)
     ∧ dotEdges unique true typed t
         = (withParent t).map (fun pn => (keyOf unique pn.1, keyOf unique pn.2, if typed then pn.2.kind else none))
     ∧ dotEdges unique false typed t
         = ((withParent t).filter (fun pn => !(pn.1.id == t.id))).map
             (fun pn => (keyOf unique pn.1, keyOf unique pn.2, if typed then pn.2.kind else none)) := by
-  refine ⟨by simp [dotNodes], ?_, ?_⟩
+  refine ⟨?_, ?_, ?_⟩
+  · cases unique
+    · simp [dotNodes, dotDeclLoop_false]
+    · simp only [dotNodes, if_true, Bool.false_eq_true, if_false, List.nil_append, List.cons_append,
+        dotDeclLoop_seeded, dotDeclLoop_spec, List.filter_map]
+      rfl
   · unfold dotEdges
     rw [← List.filterMap_eq_map]
     apply filterMap_congr'
